@@ -25,6 +25,7 @@ var (
 	VerifOpen  atomic.Int64 // gauge: open slots in use
 	VerifRing  atomic.Int64 // gauge: closed-id ring length
 	VerifHeld  atomic.Int64 // gauge: header octets held back across frames
+	VerifBody  atomic.Int64 // gauge: most request body octets buffered for one stream not yet handed over
 
 	VerifClientEnqN      atomic.Int64 // items put into in/out/winCh
 	VerifClientDeqN      atomic.Int64 // write-loop iterations completed
@@ -77,7 +78,7 @@ func VerifResetCounters() {
 	for _, c := range []*atomic.Int64{
 		&VerifForwardedN, &VerifLoopTopN, &VerifLoopExitN, &VerifQueuedN,
 		&VerifDroppedN, &VerifDispatchedN, &VerifStrms, &VerifOpen, &VerifRing,
-		&VerifHeld, &VerifClientEnqN, &VerifClientDeqN, &VerifClientLoopExits,
+		&VerifHeld, &VerifBody, &VerifClientEnqN, &VerifClientDeqN, &VerifClientLoopExits,
 	} {
 		c.Store(0)
 	}
@@ -183,9 +184,18 @@ func verifRelease(kind string, p interface{}) {
 
 func verifHeldBytes(strms Streams) int {
 	n := 0
+	body := 0
 	for _, s := range strms {
 		n += len(s.previousHeaderBytes)
+		// Before the handler starts the stream loop is the only owner of the
+		// request, so it may look at the body gathered so far.
+		if s.ctx != nil && !s.handlerRunning && !s.responded {
+			if l := len(s.ctx.Request.Body()); l > body {
+				body = l
+			}
+		}
 	}
+	VerifBody.Store(int64(body))
 
 	return n
 }
